@@ -121,6 +121,7 @@ type World struct {
 	stacks    []*stack.Stack
 	Trace     []string // human-readable event log (kept in memory, written after the bubble)
 	TraceOn   bool
+	ipid      uint16 // identification counter of packets the scripted peer builds
 }
 
 // Violation is the first oracle failure of a run.
@@ -431,3 +432,14 @@ func (w *World) ApplyWire(s Step) bool {
 
 // SimSeconds is the fake time covered so far.
 func (w *World) SimNanos() int64 { return int64(time.Since(w.T0)) }
+
+// InjectNoWait hands a packet to the stack without waiting for quiescence, so
+// that several arrivals can be pending at once (bursts).
+func (w *World) InjectNoWait(l *Link, proto tcpip.NetworkProtocolNumber, data []byte, mode int) {
+	if l.disp == nil {
+		return
+	}
+	w.Log.Byte(0x80 | byte(l.Idx))
+	w.Log.Bytes(data)
+	l.disp.DeliverNetworkPacket(l, "", "", proto, views(data, mode))
+}
